@@ -398,6 +398,14 @@ static void gen_case(Rng& rng, std::string const& name, int nops)
     else if (how < 80) { tsc = last - rng.below(5000); }                                 // decreasing (another thread's older statement)
     else if (how < 90) { tsc = b.base_tsc - rng.below(3000); }                           // before the base
     else { tsc = b.base_tsc + rng.below(static_cast<uint64_t>(iv > 0 ? iv : 1)); }
+    {
+      // stay within the range in which tick differences and the generator's own wall-clock truth are meaningful int64 values
+      // (about a year of ticks around the start): a base that was never set (every constructor attempt failed) or an interval
+      // that was doubled many times would otherwise ask for time stamps 2^63 ticks away
+      auto sane = [&](uint64_t x) { int64_t const d = static_cast<int64_t>(x - wd.t0); return d > -(int64_t{1} << 55) && d < (int64_t{1} << 55); };
+      if (!sane(last)) { last = wd.t0 + 100000; }
+      if (!sane(tsc)) { tsc = last + rng.below(2000); }
+    }
     if (rng.chance(8)) { wd.step += rng.pick<int64_t>({-2000, -100, 100, 2000}); }
     auto r = make_reads(rng, wd, tsc + 200, far ? 0 : static_cast<int>(rng.below(5)));
     run_line(c, "conv " + std::to_string(tsc) + " " + reads_str(r));
